@@ -547,3 +547,50 @@ def State.rmKey (s : State) (set : String) (key : String) (strict : Bool) : Resp
             | some s3 => (.ok "-", { s3 with edges := s3.edges.filter (fun e => e.1 != Key.keyMeta sh kh) })
 
 end Stam
+
+namespace Stam
+
+/-! ### public identifiers (C03) -/
+
+/-- `str::parse::<usize>()`: an optional `+`, then one or more ASCII digits, below 2^64 -/
+def parseUsize (cs : List Char) : Option Nat :=
+  let ds := match cs with
+    | '+' :: rest => rest
+    | _ => cs
+  if ds.isEmpty || !ds.all (fun c => '0' ≤ c && c ≤ '9') then none
+  else
+    let v := ds.foldl (fun acc c => acc * 10 + (c.toNat - '0'.toNat)) 0
+    if v < 2 ^ 64 then some v else none
+
+/-- `resolve_temp_id` guarded by the type letter: `!<L><n>` -/
+def tempId (letter : Char) (id : String) : Option Nat :=
+  match id.toList with
+  | '!' :: l :: rest => if l = letter then parseUsize rest else none
+  | _ => none
+
+/-- looking an annotation up by a public (or temporary) identifier through the API -/
+def State.lookupAnn (s : State) (id : String) : Option Nat :=
+  match tempId 'A' id with
+  | some n => if (getLive s.anns n).isSome then some n else none
+  | none => s.resolveAnn (.id id)
+
+def State.lookupRes (s : State) (id : String) : Option Nat :=
+  match tempId 'R' id with
+  | some n => if (getLive s.res n).isSome then some n else none
+  | none => s.resolveRes id
+
+def State.lookupSet (s : State) (id : String) : Option Nat :=
+  match tempId 'S' id with
+  | some n => if (getLive s.sets n).isSome then some n else none
+  | none => s.resolveSet id
+
+/-- `strip_annotation_ids` -/
+def State.stripAnn (s : State) : State :=
+  { s with anns := s.anns.map (fun o => o.map (fun a => { a with id := none })) }
+
+/-- `strip_data_ids` -/
+def State.stripData (s : State) : State :=
+  { s with sets := s.sets.map (fun o => o.map (fun m =>
+      { m with data := m.data.map (fun d => d.map (fun x => { x with id := none })) })) }
+
+end Stam
